@@ -47,19 +47,6 @@ First instalment (kept): what the individual record handlers do to the entry tab
 -/
 open Conv ConvSpec
 
-theorem modifyNth_get {α} (l : List α) (i : Nat) (f : α → α) : (modifyNth l i f)[i]? = (l[i]?).map f := by
-  induction l generalizing i with
-  | nil => simp [modifyNth]
-  | cons x xs ih => cases i <;> simp [modifyNth, ih]
-
-theorem modifyNth_get_ne {α} (l : List α) (i j : Nat) (f : α → α) (h : i ≠ j) :
-    (modifyNth l i f)[j]? = l[j]? := by
-  induction l generalizing i j with
-  | nil => simp [modifyNth]
-  | cons x xs ih =>
-    cases i <;> cases j <;> simp [modifyNth] at h ⊢
-    exact ih _ _ h
-
 /-- EXIT of a non-main thread that is bound: its thread entry gets the exit time as end time, every other
 thread entry and every process entry is untouched. -/
 theorem C17_thread_exit_sets_end (s : St) (p : ProcC) (tid time : Nat) (t : ThreadC)
@@ -71,10 +58,10 @@ theorem C17_thread_exit_sets_end (s : St) (p : ProcC) (tid time : Nat) (t : Thre
   unfold removeThread
   simp only [ht]
   refine ⟨?_, ?_, rfl, ?_⟩
-  · simp [putProc, setTEnd, setT, modifyNth_get]
+  · simp [putProc, setTEnd, setT, LifeL.modifyNth_get]
   · intro j hj
     simp only [putProc, setTEnd, setT]
-    exact modifyNth_get_ne _ _ _ _ (Ne.symm hj)
+    exact LifeL.modifyNth_get_ne _ _ _ _ (Ne.symm hj)
   · simp only [alGet, alDel]
     rw [Option.map_eq_none_iff, List.find?_eq_none]
     intro x hx
@@ -92,10 +79,10 @@ theorem C17_comm_renames_thread (s : St) (p : ProcC) (tid time : Nat) (name : St
   unfold renameThread
   simp only [hne, if_false, ht, hn, hr, Bool.false_eq_true]
   refine ⟨?_, ?_, rfl⟩
-  · simp [putProc, setTName, setT, modifyNth_get]
+  · simp [putProc, setTName, setT, LifeL.modifyNth_get]
   · intro j hj
     simp only [putProc, setTName, setT]
-    exact modifyNth_get_ne _ _ _ _ (Ne.symm hj)
+    exact LifeL.modifyNth_get_ne _ _ _ _ (Ne.symm hj)
 
 /-- A COMM that repeats the current name changes nothing at all. -/
 theorem C17_comm_same_name_noop (s : St) (p : ProcC) (tid time : Nat) (name : String) (th : ThreadC)
